@@ -396,22 +396,50 @@ class Fn:
             return self._succ_cache[key]
         live = self.live_blocks(unwind)
         P = self.preds(unwind)
-        dom = {b: set(live) for b in live}
-        dom[0] = {0}
+        # Cooper-Harvey-Kennedy immediate dominators over a reverse post-order, then the dominator sets
+        order, seen, stack = [], {0}, [(0, iter(self.succs(0, unwind)))]
+        while stack:
+            b, it = stack[-1]
+            adv = False
+            for s_ in it:
+                if s_ in live and s_ not in seen:
+                    seen.add(s_)
+                    stack.append((s_, iter(self.succs(s_, unwind))))
+                    adv = True
+                    break
+            if not adv:
+                order.append(b)
+                stack.pop()
+        rpo = order[::-1]
+        num = {b: i for i, b in enumerate(rpo)}
+        idom = {0: 0}
         changed = True
-        order = sorted(live)
         while changed:
             changed = False
-            for b in order:
-                if b == 0:
-                    continue
-                ps = [p for p in P[b] if p in live]
-                if not ps:
-                    continue
-                new = set.intersection(*[dom[p] for p in ps]) | {b}
-                if new != dom[b]:
-                    dom[b] = new
+            for b in rpo[1:]:
+                new = None
+                for p_ in P[b]:
+                    if p_ in idom and p_ in num:
+                        if new is None:
+                            new = p_
+                        else:
+                            x, y = p_, new
+                            while x != y:
+                                while num[x] > num[y]:
+                                    x = idom[x]
+                                while num[y] > num[x]:
+                                    y = idom[y]
+                            new = x
+                if new is not None and idom.get(b) != new:
+                    idom[b] = new
                     changed = True
+        dom = {0: {0}}
+        for b in rpo[1:]:
+            if b in idom:
+                dom[b] = dom[idom[b]] | {b}
+        for b in live:
+            dom.setdefault(b, {b})
+        self._succ_cache[("idom", unwind)] = idom
         self._succ_cache[key] = dom
         return dom
 
@@ -472,7 +500,13 @@ class Fn:
         return out
 
     def loc(self, bb):
-        return "%s:%d" % (self.file, self.term(bb)["line"])
+        b = self.blocks[bb]
+        t = b.get("inl_call") or b["term"]
+        return "%s:%d" % (b.get("file") or self.file, t["line"])
+
+    def src_of(self, bb):
+        """def path of the function whose body block bb was copied from (inlined bodies), else this function"""
+        return self.blocks[bb].get("src") or self.id
 
     # ---- def-use
     def defs(self):
@@ -1028,6 +1062,21 @@ class Facts:
             else:
                 out |= eff[to]
         return out
+
+    def effects_at(self, f, bb, inst=None):
+        """effects of the call/drop terminating block bb of f.  Works for inlined bodies (the block remembers the instance
+        and the original block it was copied from) and for plain bodies (inst = the instance to use)."""
+        b = f.blocks[bb]
+        if b.get("synthetic"):
+            return set()
+        iid = b.get("inst")
+        if iid is not None:
+            return self.call_effects(self.instances[iid], b["obb"])
+        if getattr(f, "is_inlined", False) and inst is None:
+            inst = getattr(f, "root_inst", None)
+        if inst is None:
+            raise CheckerError("effects_at: no instance for %s" % f.id)
+        return self.call_effects(inst, b.get("obb", bb))
 
     def effect_witness(self, start_id, tag, limit=12):
         """a call chain (list of instance names) from instance start_id to a leaf carrying `tag`"""
